@@ -49,38 +49,96 @@ fn post_json(ep: &'static str, target: &str, body: &[u8]) -> Req {
     req(ep, "POST", target.as_bytes(), Some(JSON_CT), Framing::Cl, body)
 }
 
-/// Send `rq`; then a valid request on the same connection (or a new one).
+/// Send `rq` on its own connection; then a valid request on the same connection
+/// (if the server kept it open) and, always, one on a fresh connection.
+/// follow-up = the fresh one was answered 200, and so was the one on the same
+/// connection unless the server had closed it.
 fn run_case(addr: SocketAddr, ctx: &SrvCtx, rq: &Req) -> (u16, Got, usize, bool) {
     let follow = get("p3", "/path/1/f/true");
     let before = ctx.count(rq.ep);
     let mut port = 0;
     let mut got = digest(None);
-    let mut followup = false;
-    let mut same_conn_done = false;
+    let mut same_conn_ok = true;
+    let mut delta = None;
     if let Ok(mut s) = connect_long(addr) {
         port = s.local_addr().map(|a| a.port()).unwrap_or(0);
         if s.write_all(&rq.wire()).is_ok() {
             let mut rr = RespReader::new(s.try_clone().expect("clone"));
             got = digest(rr.read_response(false));
-            let delta_now = ctx.count(rq.ep) - before;
-            // follow-up on the same connection
+            delta = Some(ctx.count(rq.ep) - before);
             if got.status != 0 && s.write_all(&follow.wire()).is_ok() {
                 if let Some(r) = rr.read_response(false) {
-                    same_conn_done = true;
-                    followup = r.status == 200;
+                    same_conn_ok = r.status == 200;
                 }
+                // no answer: the server closed the connection, which it may
             }
-            if !same_conn_done {
-                let a = single(addr, &follow);
-                followup = a.resp.map(|r| r.status == 200).unwrap_or(false);
-            }
-            return (port, got, delta_now, followup);
         }
     }
-    let delta = ctx.count(rq.ep) - before;
-    let a = single(addr, &follow);
-    followup = a.resp.map(|r| r.status == 200).unwrap_or(false);
-    (port, got, delta, followup)
+    let delta = delta.unwrap_or_else(|| ctx.count(rq.ep) - before);
+    let fresh = single(addr, &follow);
+    let fresh_ok = fresh.resp.map(|r| r.status == 200).unwrap_or(false);
+    (port, got, delta, fresh_ok && same_conn_ok)
+}
+
+/// Every position that goes through a typed parse, with a long / non-ASCII
+/// ill-typed value in it.
+fn long_cases(v: &mut Vec<Req>) {
+    let enc = |s: &str| pct_encode(s.as_bytes());
+    let mut vals = long_values();
+    let huge = huge_values();
+    for (label, val) in vals.drain(..).chain(huge.into_iter()) {
+        let is_huge = val.len() >= 65536;
+        let e = enc(&val);
+        let mut push = |mut r: Req, pos: &str| {
+            r.meta = format!("long.{}.{}", pos, label);
+            v.push(r);
+        };
+        // path variables of each scalar kind
+        push(get("scal", &format!("/scal/{}/-5/true/c/Red", e)), "path-u16");
+        push(get("scal", &format!("/scal/7/{}/true/c/Red", e)), "path-i32");
+        push(get("scal", &format!("/scal/7/-5/{}/c/Red", e)), "path-bool");
+        push(get("scal", &format!("/scal/7/-5/true/{}/Red", e)), "path-char");
+        push(get("scal", &format!("/scal/7/-5/true/c/{}", e)), "path-enum");
+        push(get("p3", &format!("/path/{}/bob/true", e)), "path-i64");
+        push(get("wild", &format!("/wild/{}/a/b", e)), "path-u32");
+        // query parameters
+        push(get("q6", &format!("/query?n={}&s=x", e)), "query-u64");
+        push(get("q6", &format!("/query?n=5&s=x&b={}", e)), "query-bool");
+        push(get("q6", &format!("/query?n=5&s=x&e={}", e)), "query-enum");
+        push(get("q6", &format!("/query?n=5&s=x&i={}", e)), "query-i8");
+        push(get("q6", &format!("/query?n=5&s=x&c={}", e)), "query-char");
+        // paginated: first-page scan parameters (from_map), limit, page token
+        push(get("page", &format!("/page?min={}", e)), "page-scan-u32");
+        push(get("page", &format!("/page?kind={}", e)), "page-scan-enum");
+        push(get("page", &format!("/page?flag={}&min=3", e)), "page-scan-bool");
+        push(get("page", &format!("/page?limit={}", e)), "page-limit");
+        push(get("page", &format!("/page?page_token={}", e)), "page-token");
+        // url-encoded body fields
+        if is_huge && e.len() > 70000 {
+            // bodies: the raw ASCII value only (the encoded multi-byte one is three times as long)
+            continue;
+        }
+        let body = format!("id={}&name=bob", e);
+        push(req("bigform", "POST", b"/bigform", Some(FORM_CT), Framing::Cl, body.as_bytes()), "form-u32");
+        let body = format!("id=9&name=bob&flag={}", e);
+        push(req("bigform", "POST", b"/bigform", Some(FORM_CT), Framing::Cl, body.as_bytes()), "form-bool");
+        // JSON: a string where a number / boolean / variant is required
+        let js = serde_json::to_string(&val).unwrap();
+        let body = format!("{{\"id\":{},\"s\":\"x\",\"e\":\"Red\"}}", js);
+        push(req("bigjson", "POST", b"/bigjson", Some(JSON_CT), Framing::Cl, body.as_bytes()), "json-u32");
+        let body = format!("{{\"id\":1,\"s\":\"x\",\"o\":{},\"e\":\"Red\"}}", js);
+        push(req("bigjson", "POST", b"/bigjson", Some(JSON_CT), Framing::Cl, body.as_bytes()), "json-bool");
+        let body = format!("{{\"id\":1,\"s\":\"x\",\"e\":{}}}", js);
+        push(req("bigjson", "POST", b"/bigjson", Some(JSON_CT), Framing::Cl, body.as_bytes()), "json-enum");
+    }
+    // controls: the same endpoints with valid input
+    v.push(get("scal", "/scal/65535/-2147483648/false/%F0%9F%98%80/dark-blue"));
+    v.push(get("page", "/page"));
+    v.push(get("page", "/page?min=4294967295&kind=Green&flag=false&limit=5"));
+    v.push(get("page", "/page?limit=0"));
+    v.push(get("page", "/page?limit=5&limit=5"));
+    v.push(req("bigform", "POST", b"/bigform", Some(FORM_CT), Framing::Cl, b"id=9&name=bob"));
+    v.push(req("bigjson", "POST", b"/bigjson", Some(JSON_CT), Framing::Cl, br#"{"id":1,"s":"x","e":"Red"}"#));
 }
 
 fn cases(rng: &mut Rng, thorough: bool) -> Vec<Req> {
@@ -420,15 +478,154 @@ fn cases(rng: &mut Rng, thorough: bool) -> Vec<Req> {
     v
 }
 
+// ------------------------------------------------------------ function level, inside catch_unwind
+
+use dropshot::verif_hooks as hooks;
+use serde::de::DeserializeOwned;
+use serde::Serialize;
+use std::collections::BTreeMap;
+
+#[derive(Clone)]
+enum VV {
+    S(String),
+    C(Vec<String>),
+}
+
+fn entries_field(m: &BTreeMap<String, VV>) -> String {
+    if m.is_empty() {
+        return "_".into();
+    }
+    m.iter()
+        .map(|(k, v)| match v {
+            VV::S(s) => format!("{}=S{}", hex(k.as_bytes()), hex(s.as_bytes())),
+            VV::C(c) => {
+                let mut t = format!("{}=C{}", hex(k.as_bytes()), c.len());
+                for x in c {
+                    t.push('/');
+                    t.push_str(&hex(x.as_bytes()));
+                }
+                t
+            }
+        })
+        .collect::<Vec<_>>()
+        .join(",")
+}
+
+/// The three hooks on one map; a panic in any of them is reported as `panic`.
+fn run_hooks<T: DeserializeOwned + Serialize>(m: &BTreeMap<String, VV>) -> [(&'static str, String); 3] {
+    let vars: BTreeMap<String, hooks::VariableValue> = m
+        .iter()
+        .map(|(k, v)| {
+            (
+                k.clone(),
+                match v {
+                    VV::S(s) => hooks::VariableValue::String(s.clone()),
+                    VV::C(c) => hooks::VariableValue::Components(c.clone()),
+                },
+            )
+        })
+        .collect();
+    let strings: Option<BTreeMap<String, String>> = m
+        .iter()
+        .map(|(k, v)| match v {
+            VV::S(s) => Some((k.clone(), s.clone())),
+            VV::C(_) => None,
+        })
+        .collect();
+    let res = |r: Result<Result<T, String>, String>| match r {
+        Ok(Ok(v)) => format!("ok {}", canon_of(&v)),
+        Ok(Err(msg)) => format!("err {}", classify(&msg)),
+        Err(_) => "panic".to_string(),
+    };
+    let v2 = vars.clone();
+    let a = res(catch(std::panic::AssertUnwindSafe(|| hooks::from_map_vars::<T>(&vars))));
+    let b = match strings {
+        Some(sm) => res(catch(std::panic::AssertUnwindSafe(|| hooks::from_map_strings::<T>(&sm)))),
+        None => "skip".to_string(),
+    };
+    let c = match catch(std::panic::AssertUnwindSafe(|| hooks::http_extract_path_params::<T>(&v2))) {
+        Ok(Ok(v)) => format!("ok {}", canon_of(&v)),
+        Ok(Err(e)) => format!("err {}", e.status_code.as_u16()),
+        Err(_) => "panic".to_string(),
+    };
+    [("vars", a), ("strings", b), ("path", c)]
+}
+
+fn fl_stream(out: &mut Out, id: &mut u64) {
+    // (shape, valid entries); the long value replaces one entry at a time
+    let bases: Vec<(u32, Vec<(&str, &str)>)> = vec![
+        (0, vec![("a", "1"), ("b", "2"), ("c", "3"), ("d", "4")]),
+        (1, vec![("a", "-1"), ("b", "-2"), ("c", "-3"), ("d", "-4")]),
+        (2, vec![("s", "x"), ("b", "true"), ("c", "z")]),
+        (3, vec![("o", "1"), ("p", "x"), ("q", "true")]),
+        (4, vec![("e", "Red")]),
+        (8, vec![("oe", "Green"), ("oi", "-9"), ("name", "n")]),
+        (20, vec![("u", "7"), ("i", "-5"), ("b", "true"), ("c", "c"), ("e", "Red")]),
+        (21, vec![("min", "3"), ("kind", "Red"), ("flag", "false")]),
+    ];
+    let mut vals = long_values();
+    vals.extend(huge_values());
+    for (label, val) in &vals {
+        for (shape, base) in &bases {
+            for (key, _) in base {
+                if (*shape == 2 && *key == "s") || (*shape == 3 && *key == "p") || (*shape == 8 && *key == "name") {
+                    continue; // a String field: not ill-typed
+                }
+                let m: BTreeMap<String, VV> = base
+                    .iter()
+                    .map(|(k, v)| (k.to_string(), VV::S(if k == key { val.clone() } else { v.to_string() })))
+                    .collect();
+                let rs = match shape {
+                    0 => run_hooks::<U4>(&m),
+                    1 => run_hooks::<I4>(&m),
+                    2 => run_hooks::<T3>(&m),
+                    3 => run_hooks::<O3>(&m),
+                    4 => run_hooks::<E1>(&m),
+                    8 => run_hooks::<OE3>(&m),
+                    20 => run_hooks::<SC5>(&m),
+                    _ => run_hooks::<ScanP>(&m),
+                };
+                for (hook, r) in rs {
+                    if r == "skip" {
+                        continue;
+                    }
+                    *id += 1;
+                    out.line(&format!("fl {} {} {} {}.{} {} => {}", id, hook, shape, key, label, entries_field(&m), r));
+                }
+            }
+        }
+        // inside a wildcard's components, for Vec<u16>, and as a single value where a sequence is needed
+        for comps in [vec!["1".to_string(), val.clone()], vec![val.clone()]] {
+            let m: BTreeMap<String, VV> = [("v".to_string(), VV::C(comps))].into_iter().collect();
+            for (hook, r) in run_hooks::<V1>(&m) {
+                if r == "skip" {
+                    continue;
+                }
+                *id += 1;
+                out.line(&format!("fl {} {} 11 v.{} {} => {}", id, hook, label, entries_field(&m), r));
+            }
+        }
+        let m: BTreeMap<String, VV> = [("v".to_string(), VV::S(val.clone()))].into_iter().collect();
+        for (hook, r) in run_hooks::<V1>(&m) {
+            *id += 1;
+            out.line(&format!("fl {} {} 11 v.{} {} => {}", id, hook, label, entries_field(&m), r));
+        }
+    }
+}
+
 fn main() {
     quiet_panics();
     let mut out = Out::new();
+    let mut fid = 0u64;
+    fl_stream(&mut out, &mut fid);
+    out.flush();
     let mut rng = Rng::from_env(10);
     let mut list = cases(&mut rng, is_thorough());
+    long_cases(&mut list);
     // the verdict must not depend on how the body is framed: a third of the
     // body-carrying cases go out chunked (random sizes, extensions, trailers)
     for rq in list.iter_mut() {
-        if matches!(rq.framing, Framing::Cl) && !rq.payload.is_empty() && rng.chance(1, 3) {
+        if matches!(rq.framing, Framing::Cl) && !rq.payload.is_empty() && rq.payload.len() <= 6000 && rng.chance(1, 3) {
             rq.framing = gen_framing(&mut rng, rq.payload.len());
         }
     }
@@ -438,7 +635,7 @@ fn main() {
         start_server(make_api(), ctx.clone(), ServerOpts { default_request_body_max_bytes: BODY_CAP, ..Default::default() })
     });
     let addr = server.local_addr();
-    let mut id = 0u64;
+    let mut id = fid;
     for rq in &list {
         let (port, got, delta, followup) = run_case(addr, &ctx, rq);
         id += 1;
